@@ -316,6 +316,10 @@ class Lower:
             return
         if k in ("CImportStatNode", "FromCImportStatNode", "FromImportStatNode"):
             return
+        if k == "RaiseStatNode":
+            # the exception object is not modelled: control leaves the function (nothing to establish afterwards)
+            out.append(f"{pad}raise Exception(){mark}")
+            return
         raise Unsupported(f"statement {k}")
 
     def block(self, n, ind, out, types):
